@@ -3,7 +3,9 @@
 usage: confirm_seed.py <Cxx> <k> [<out_dir>]   (uses a scratch worktree under /tmp, removed afterwards)"""
 import json, os, shutil, subprocess, sys
 pid, k = sys.argv[1], sys.argv[2]
-out = sys.argv[3] if len(sys.argv) > 3 else f"/tmp/seed/out-{pid}"
+rnd = os.environ.get("SEED_ROUND", "")          # later rounds of independent seeds use /tmp/seed/out<round>-<id>, wt<round>-<id>
+out = sys.argv[3] if len(sys.argv) > 3 else f"/tmp/seed/out{rnd}-{pid}"
+dest_k = os.environ.get("SEED_DEST_K", k)        # number under which the seed is stored in /verif/seeded
 wt = f"/tmp/seed/confirm-{pid}-{k}"
 def sh(cmd, **kw):
     return subprocess.run(cmd, shell=True, capture_output=True, text=True, **kw)
@@ -13,7 +15,7 @@ try:
     env = f"cd {wt} && PYTHONPATH={wt}/src:{wt}"
     demo = open(f"{out}/demo{k}.py").read()
     # demos were written against the agent's worktree path; run them against ours
-    agent_wt = f"/tmp/seed/wt-{pid}"
+    agent_wt = f"/tmp/seed/wt{rnd}-{pid}"
     demo_path = f"{wt}/_demo.py"
     open(demo_path, "w").write(demo.replace(agent_wt, wt))
     r0 = sh(f"{env} timeout 300 /venv/bin/python {demo_path}")
@@ -26,7 +28,7 @@ try:
     ok = r0.returncode == 0 and r1.returncode != 0 and "514 passed" in t.stdout and "failed" not in t.stdout
     print(f"{pid}-{k}: pristine demo rc={r0.returncode}, patched demo rc={r1.returncode}, tests: {t.stdout.strip().splitlines()[-1] if t.stdout.strip() else t.stderr[-200:]} => {'CONFIRMED' if ok else 'REJECTED'}")
     if ok:
-        dst = f"/verif/seeded/{pid}-{k}"
+        dst = f"/verif/seeded/{pid}-{dest_k}"
         os.makedirs(dst, exist_ok=True)
         shutil.copy(f"{out}/patch{k}.diff", f"{dst}/patch.diff")
         open(f"{dst}/demo.py", "w").write(demo)
